@@ -185,10 +185,35 @@ func judgeNames(r *mon.Rec, idx int) {
 	var enc []byte
 	var back *rfc1035label.Labels
 	var err error
+	var enc2 []byte
+	var names2 []string
 	pan, val, st := mon.Guard(func() {
 		l := &rfc1035label.Labels{Labels: append([]string{}, names...)}
 		enc = l.ToBytes()
 		back, err = rfc1035label.FromBytes(enc)
+		// the same hand-built set, read (Length, ToBytes, String) and then changed in place: it is a list of names like
+		// any other and encodes what it holds now
+		if len(l.Labels) > 0 {
+			_ = l.Length()
+			_ = l.String()
+			i := rng.IntN(len(l.Labels))
+			switch rng.IntN(3) {
+			case 0:
+				l.Labels[i] = genName(rng)
+			case 1:
+				l.Labels[i], l.Labels[0] = l.Labels[0], l.Labels[i]
+			default:
+				if b := []byte(l.Labels[i]); len(b) > 0 && b[0] != '.' {
+					b[0] ^= 0x01
+					if b[0] == '.' {
+						b[0] = 'q'
+					}
+					l.Labels[i] = string(b)
+				}
+			}
+			names2 = append([]string{}, l.Labels...)
+			enc2 = append([]byte{}, l.ToBytes()...)
+		}
 	})
 	if pan {
 		r.Violate("C19:panic:"+mon.LibFrame(st), fmt.Sprint(val), rp)
@@ -205,6 +230,12 @@ func judgeNames(r *mon.Rec, idx int) {
 	if want := reflabel.Encode(names); !bytes.Equal(enc, want) {
 		r.Violate("C19:encoding-not-rfc", fmt.Sprintf("encoding of %.100q is %x, RFC 1035 encoding is %x", names, trunc(enc), trunc(want)), rp)
 		return
+	}
+	if names2 != nil {
+		if res := reflabel.Decode(enc2); res.V != reflabel.Names || !eqNames(res.Names, names2) {
+			r.Violate("C19:built-set-edit-not-encoded", fmt.Sprintf("a hand-built set was encoded, then changed in place to %.100q; its encoding decodes (by the reference) to %v %.100q", names2, res.V, res.Names), rp)
+			return
+		}
 	}
 	// encodings the caller still holds (to decode them later, to put them into a packet) are not touched by later encodes
 	for _, h := range heldEnc {
